@@ -179,7 +179,7 @@ Section Field.
     match jget val term with
     | None => Some None
     | Some sub => match run_leaf jr_tables (get_value jr_tables li d) (B "JSONGetActorEndpoints") sub with
-                  | Some fs => Some (Some (FEndpoints (Some (flat_map (fun p => match snd p with FItem i => [(fst p, i)] | _ => [] end) fs))))
+                  | Some fs => Some (Some (FEndpoints (Some (endpoints_in_struct_order (flat_map (fun p => match snd p with FItem i => [(fst p, i)] | _ => [] end) fs)))))
                   | None => None
                   end
     end.
